@@ -162,9 +162,14 @@ def chunk_case(case, ctx):
             require(torch.equal(ch[row], x[:, j * stride:j * stride + size]), "chunk-content",
                     lambda: "chunk %d" % row)
             row += 1
+    import numpy
     form = case.get("lengths_form", "list")
-    lens = lengths if form == "list" else torch.tensor(lengths)
+    lens = lengths if form == "list" else (torch.tensor(lengths) if form == "tensor" else numpy.array(lengths, dtype=numpy.int64))
     ys = sut(unchunk, ch, lengths=lens, overlap=ov)
+    same_lens = list(lens) == lengths if form == "list" else [int(v) for v in lens] == lengths
+    require(same_lens, "unchunk-lengths-modified", lambda: "lengths %r became %r" % (lengths, [int(v) for v in lens]))
+    ys_again = sut(unchunk, ch, lengths=lens, overlap=ov)          # the same lengths object is reusable
+    require(len(ys_again) == len(ys) and all(torch.equal(a_, b_) for a_, b_ in zip(ys, ys_again)), "unchunk-second-call-differs", "")
     require(len(ys) == len(Xs), "unchunk-count", lambda: "%d outputs for %d sequences" % (len(ys), len(Xs)))
     for i, (y, x, cov) in enumerate(zip(ys, Xs, covered)):
         require(tuple(y.shape) == (C, cov) and torch.equal(y, x[:, :cov]), "unchunk-roundtrip",
@@ -191,7 +196,7 @@ def chunk_strategy(draw):
         seqs.append([k, extra])
     return {"size": size, "overlap": ov, "C": draw(st.integers(1, 3)), "seqs": seqs,
             "dtype": draw(st.sampled_from(["int64", "float32", "float64", "int32"])),
-            "lengths_form": draw(st.sampled_from(["list", "tensor"]))}
+            "lengths_form": draw(st.sampled_from(["list", "tensor", "numpy"]))}
 
 
 def chunk_enum(tier):
